@@ -21,7 +21,7 @@ fn judge(plan: &ClientPlan, run: &client::ClientRun, out: &mut RunOut) {
                 out.fail(
                     "panic",
                     panic_sig(loc, msg),
-                    format!("{} panicked at {loc}: {msg} (read_card_timeout = {})", o.name, plan.cfg.read_card_timeout),
+                    format!("{} panicked at {loc}: {msg} (configuration: {:?})", o.name, plan.cfg),
                 );
             }
             OpResult::Hang => {
@@ -251,6 +251,35 @@ impl Check for C10 {
                 p
             }
         }));
+        // configuration values beyond what their wire fields can carry (password > 6 digits, amount
+        // > 12 digits, currency > 4 digits, terminal id > 8 digits / not a number): the call must still
+        // come back with a result or an error - one value out of range at a time, and all together
+        fams.push(Family::new("configuration_beyond_wire_range", 5 * (4 + 3 + 3 + 6 + 1), true, {
+            let wl = wl.clone();
+            move |i, _| {
+                let mut p = ClientPlan::plain(wl[(i % 5) as usize].clone());
+                p.cfg.max_tx = 2;
+                let k = i / 5;
+                let pw = [999_999u32, 1_000_000, 99_999_999, u32::MAX];
+                let amt = [999_999_999_999u64, 1_000_000_000_000, u64::MAX];
+                let cur = [9_999u16, 10_000, u16::MAX];
+                let tid = ["99999999", "100000000", "18446744073709551615", "18446744073709551616", "abc", "-1"];
+                match k {
+                    0..=3 => p.cfg.password = pw[k as usize],
+                    4..=6 => p.cfg.pre_auth = amt[(k - 4) as usize],
+                    7..=9 => p.cfg.currency = cur[(k - 7) as usize],
+                    10..=15 => p.cfg.terminal_id = tid[(k - 10) as usize].into(),
+                    _ => {
+                        p.cfg.password = u32::MAX;
+                        p.cfg.pre_auth = u64::MAX;
+                        p.cfg.currency = u16::MAX;
+                        p.cfg.terminal_id = "100000000".into();
+                    }
+                }
+                p.label = "beyond_range".into();
+                p
+            }
+        }));
         let n = match tier {
             Tier::Quick => 20_000,
             Tier::Thorough => 600_000,
@@ -271,8 +300,14 @@ impl Check for C10 {
         let mut h = crate::rng::Hasher64::default();
         h.u64(shape_of(plan, &run));
         h.u64(plan.cfg.read_card_timeout as u64);
+        if plan.label == "beyond_range" {
+            h.u64(plan.cfg.password as u64);
+            h.u64(plan.cfg.pre_auth);
+            h.u64(plan.cfg.currency as u64);
+            h.bytes(plan.cfg.terminal_id.as_bytes());
+        }
         out.shape = h.finish();
-        out.nontrivial = !plan.faults.is_empty() || !plan.connects.is_empty() || plan.label == "tau";
+        out.nontrivial = !plan.faults.is_empty() || !plan.connects.is_empty() || plan.label == "tau" || plan.label == "beyond_range";
         if want_trace {
             out.trace = run.trace();
         }
@@ -299,7 +334,7 @@ impl Check for C10 {
     }
 
     fn rule_text(&self) -> String {
-        "one run = real Feig::new + public calls against a terminal that stalls; enumerated: silence at every emission point of connection 0 (handshake, configure, every exchange of 5 workloads) x later connections {healthy, stall at the same point, dead terminal (stall in the handshake of every later connection), connect never completes}; connect-hang patterns; read_card_timeout 0..255 x card delivered {at once, 1 ms before the window closes, mid-window} (W2: answered on the first connection) and x a terminal that never answers; configuration extremes; PRNG stalls with schedule noise; W1: every call returns Ok/Err before the one-virtual-day watchdog and does not panic (overflow checks on); distinct = hash of per-call results/frames/connections, fired faults and read_card_timeout".into()
+        "one run = real Feig::new + public calls against a terminal that stalls; enumerated: silence at every emission point of connection 0 (handshake, configure, every exchange of 5 workloads) x later connections {healthy, stall at the same point, dead terminal (stall in the handshake of every later connection), connect never completes}; connect-hang patterns; read_card_timeout 0..255 x card delivered {at once, 1 ms before the window closes, mid-window} (W2: answered on the first connection) and x a terminal that never answers; configuration extremes and values beyond the width of their wire fields (password, amount, currency, terminal id); PRNG stalls with schedule noise; W1: every call returns Ok/Err before the one-virtual-day watchdog and does not panic (overflow checks on); distinct = hash of per-call results/frames/connections, fired faults and read_card_timeout".into()
     }
     fn assumptions(&self) -> Vec<String> {
         vec![
